@@ -32,6 +32,8 @@ def impl_replay(job):
         res = {"ok": True}
         try:
             nt, dt = rec["nt"], f(rec["dt"])
+            vd = rec.get("vd", 1)
+            vdt = dt / vd                  # the simulator's own time step (volume steps): vd per grid step
             tp = np.array([i * dt for i in range(nt)])
             if (rec.get("nt", 0) + len(rec.get("steps", []))) % 3 == 2:
                 tp = np.repeat(tp, 2)[::2]      # the same grid as a non-contiguous view
@@ -39,7 +41,7 @@ def impl_replay(job):
             V0 = f(rec["V0"])
             m, _ = build(rec["prog"], x0=[[v, 1] for v in rec["x0"]], ns=rec["ns"], via_ctor=job["via"] == 1, initialize=False)
             if vm["kind"] == "state":
-                m.create_parameter("gr", LN2 / dt)
+                m.create_parameter("gr", LN2 / vdt)
             m.py_initialize()
             s2i = m.get_species2index()
             cols = [s2i["S%d" % (i + 1)] for i in range(rec["ns"])]
@@ -51,7 +53,7 @@ def impl_replay(job):
                 rho = f(vm["rho"])
                 init_draws = [math.exp(-rho * rho / 2.0), 0.0 if vm["sg"] == 1 else 0.5]
                 if vm["kind"] == "time":
-                    vol = StochasticTimeThresholdVolume(dt, V0 * 2 ** vm["m"], f(vm["noise"]))
+                    vol = StochasticTimeThresholdVolume(vdt, V0 * 2 ** vm["m"], f(vm["noise"]))
                 else:
                     vol = StateDependentVolume()
                     vol.setup(f(vm["avg"]), f(vm["noise"]), "gr", m)
@@ -64,12 +66,12 @@ def impl_replay(job):
             brandom.py_verif_script(init_draws + draws + [0.5] * 4)
             if vm["kind"] != "const":
                 vol.py_initialize(m.get_species_array().astype(float), m.get_parameter_values().astype(float), 0.0, V0)
-            if job["via"] == 2:
+            if job["via"] == 2 and vd == 1:
                 arg = vol if (vm["kind"] != "const" or len(rec["steps"]) % 2) else V0
                 r = py_simulate_model(tp, Model=m, stochastic=True, safe=rec["safe"], volume=arg, return_dataframe=False)
             else:
                 itf = SafeModelCSimInterface(m) if rec["safe"] else ModelCSimInterface(m)
-                itf.py_set_dt(dt)
+                itf.py_set_dt(vdt)
                 r = VolumeSSASimulator().py_volume_simulate(itf, vol, tp)
             used, _, under = brandom.py_verif_script_status()
             brandom.py_verif_script(None)
@@ -87,7 +89,7 @@ def impl_replay(job):
                 prop_bad = "non-positive volume %r" % (vols,)
             elif any(vols[i + 1] < vols[i] * (1 - 1e-12) for i in range(len(vols) - 1)):
                 prop_bad = "volume decreases %r" % (vols,)
-            elif G == 2 and any(not (V0 * 2.0 ** (i - 1) * (1 - 1e-6) <= v <= V0 * 2.0 ** (i + 1) * (1 + 1e-6)) for i, v in enumerate(vols)):
+            elif G == 2 and any(not (V0 * 2.0 ** (vd * (i - 1)) * (1 - 1e-6) <= v <= V0 * 2.0 ** (vd * (i + 1)) * (1 + 1e-6)) for i, v in enumerate(vols)):
                 prop_bad = "volume not within one growth step of the growth law: log2(V/V0) = %r" % ([round(math.log2(v / V0), 3) for v in vols],)
             elif G == 1 and any(not close(v, V0, 1e-12) for v in vols):
                 prop_bad = "constant volume changed: %r" % (vols,)
@@ -105,7 +107,7 @@ def impl_replay(job):
                 res = {"ok": False, "what": "draws", "detail": "consumed %d draws, the behaviour has %d" % (used, len(init_draws) + len(draws))}
             elif not all(close(a, b, 1e-9) for a, b in zip(vols, wantv)):
                 res = {"ok": True, "drift": "volume trace %r differs from the design's %r but is within one step" % (vols, wantv)}
-            if res["ok"] and vm["kind"] == "time" and job["via"] != 2:
+            if res["ok"] and vm["kind"] == "time" and job["via"] != 2 and vd == 1:
                 # the SAME volume object, re-initialised, on a grid twice as fine (a continued / repeated experiment):
                 # the reported volume must again be positive, non-decreasing and within one step of V0 * exp(g t)
                 dt2 = dt / 2.0
